@@ -13,6 +13,7 @@ import random
 import re
 import ssl
 import string
+import sys
 from typing import TYPE_CHECKING, Optional
 
 # 3rd party imports
@@ -533,7 +534,15 @@ class IMAPClient:
                 #
                 m = RE_LITERAL_STRING_START.search(msg)
                 if m:
-                    literal_str_length = int(m.group(1))
+                    # NOTE: `int()` refuses digit strings beyond a few thousand
+                    #       digits. A count like that is over any limit we
+                    #       have: it gets the same BAD as any other oversized
+                    #       literal instead of ending the connection.
+                    #
+                    try:
+                        literal_str_length = int(m.group(1))
+                    except ValueError:
+                        literal_str_length = sys.maxsize
 
                     # Reject literals that exceed the maximum input
                     # size to prevent memory exhaustion.
